@@ -32,7 +32,8 @@ class RandomSerialDictatorship:
     np.ndarray
       A numpy array containing the allocated item for each agent or np.nan if the agent is unallocated.
     """
-    pref = np.array(profile.view(np.ndarray))
+    # Float copy: taken items are blanked with NaN below, which an integer array cannot hold.
+    pref = np.array(profile.view(np.ndarray), dtype=float)
     allocation = np.full(profile.shape[0], np.nan)
 
     order = np.arange(pref.shape[0])
